@@ -122,6 +122,7 @@ pub fn replay(cases: &[Value], out: &mut Out) {
 				.build("http://localhost:1")
 				.expect("http client builds");
 			let mut probs: Vec<(String, Value)> = vec![];
+			let mut used_ids: Vec<Value> = vec![];
 			for (j, call) in c["calls"].as_array().unwrap().iter().enumerate() {
 				let (kind, class) = (call["kind"].as_str().unwrap(), call["reply"].as_str().unwrap());
 				let tok = (i as i64) * 10 + j as i64 + 1;
@@ -153,16 +154,23 @@ pub fn replay(cases: &[Value], out: &mut Out) {
 					probs.push((format!("http-client:{kind}:requests-sent-{}", seen.len()), d("one request per call")));
 				} else {
 					let r = &sent[0];
+					// a call carries an id that no earlier call of this client used (which id is the client's business: the
+					// model's `nextId` is what the tree does - counted as drift when it differs); a notification carries none
 					let want_id = call["id"].as_i64().unwrap();
-					let id_ok = if kind == "notif" {
-						r.get("id").is_none()
-					} else if string_ids {
-						r["id"] == json!(want_id.to_string())
+					if kind == "notif" {
+						if r.get("id").is_some() {
+							probs.push(("http-client:notif:request-carries-an-id".into(), d("id on the wire")));
+						}
 					} else {
-						r["id"] == json!(want_id)
-					};
-					if !id_ok {
-						probs.push((format!("http-client:{kind}:request-id-not-the-next-id"), d("id on the wire")));
+						let id = r.get("id").cloned().unwrap_or(Value::Null);
+						if id.is_null() || used_ids.contains(&id) {
+							probs.push(("http-client:call:request-id-missing-or-used-before".into(), d("id on the wire")));
+						}
+						if id != (if string_ids { json!(want_id.to_string()) } else { json!(want_id) }) {
+							drift += 1;
+							*drift_kinds.entry("call:request-id-differs-from-the-models-counter".to_string()).or_default() += 1;
+						}
+						used_ids.push(id);
 					}
 					if r["jsonrpc"] != json!("2.0") || r["method"] != json!("m") || r["params"] != json!([tok]) {
 						probs.push((format!("http-client:{kind}:request-not-what-was-asked"), d("request on the wire")));
